@@ -26,7 +26,8 @@ EXPORT_SPEC = os.path.join(SPECS, "image", "MC_ImageExport.tla")
 INLINE_SPEC = os.path.join(SPECS, "image", "MC_InlineScan.tla")
 TRACE_SPEC = os.path.join(SPECS, "image", "ImageTrace.tla")
 LIB = os.path.join(SPECS, "image")
-IMG_DEVS = ["UnfilteredIndexError", "RowsRGB", "ShortLastRow"]
+IMG_DEVS = ["UnfilteredIndexError", "RowsRGB", "ShortLastRow", "ColorSpaceUnresolved", "GeometryUnresolved"]
+SPELLING_DEVS = ("FilterEntryUnresolved", "ColorSpaceUnresolved", "GeometryUnresolved")
 INL_DEVS = ["NoRestart", "DollarNewline", "CRLFUnit", "EOFNotDelim", "SeekOtherStream"]
 EXPORT_ACTIONS = ["ADecide", "AName", "ANameRetry", "ACreate", "AHeader", "AInfo", "APalEntry", "ASeekLine", "AWriteLine",
                   "AWriteBlob", "AClose"]
@@ -56,7 +57,9 @@ EXPORT_CONFIGS = {
               # every realisable export route inside an encrypted document (RC4, AESV2): the files must be the plain document's
               ("encrypted", "GeoEnc", "KindsAll", "EncChains", "OneImage", "EmptyDir"),
               # LZW with /EarlyChange 0, 1 and absent on an image with more than 254 codes behind the clear code
-              ("lzw-early", "GeoLZW", "KindGray", "LZWChains", "OneImage", "EmptyDir")],
+              ("lzw-early", "GeoLZW", "KindGray", "LZWChains", "OneImage", "EmptyDir"),
+              # how the stream dictionary spells /Filter, /DecodeParms, /ColorSpace, /Width /Height /BitsPerComponent, for every route
+              ("dict-spellings", "GeoEnc", "KindsAll", "RouteChains", "OneImage", "EmptyDir")],
 }
 EXPORT_CONFIGS["thorough"] = EXPORT_CONFIGS["quick"] + [
     ("bmp-writer-chains", "Geo3", "KindsBmp", '{<<"LZW">>, <<"A85", "Flate">>, <<"AHx">>, <<"RL">>, <<"Flate", "LZW">>, <<"FlatePNG">>}', "OneImage", "EmptyDir"),
@@ -129,6 +132,8 @@ def replay_export(ck, recs, dev, outroot, label, n):
                                "/".join(i["name"] for i in imgs))
     # ---- binding: the as-coded model accounts for what happened
     model_err = coded["pc"] == "error"
+    if err and err.startswith("ImportError") and coded["pc"] != "error" and coded.get("dec") in ("bytes", "jp2"):
+        model_err = True          # the route the model takes needs Pillow, which is not installed here: same route, no file
     model_files = {nm: bytes(f) for nm, f in zip(coded["names"], coded["files"])}
     same_as_coded = (bool(err) == model_err) and (err is not None or files == model_files)
     # ---- the property, evaluated on the real result
@@ -213,7 +218,8 @@ def check_arrival(pdf, imgs):
     if len(got) != len(imgs):
         raise MachineryError("realiser self-check: %d images arrive, %d intended" % (len(got), len(imgs)))
     for it, im in zip(got, imgs):
-        if tuple(it.srcsize) != (im["w"], im["h"]) or it.name != im["name"]:
+        from pdfminer.pdftypes import resolve1
+        if tuple(resolve1(v) for v in it.srcsize) != (im["w"], im["h"]) or it.name != im["name"]:
             raise MachineryError("realiser self-check: image %r arrives as %r %r" % (im, it.name, it.srcsize))
         # (whether the samples survive the filter chain is part of the property: judged on the exported file, not here)
 
@@ -224,13 +230,16 @@ def direction_a_export(ck, dev):
     effect = {}
     for (label, geo, kinds, chains, names, dirs) in EXPORT_CONFIGS[ck.tier]:
         envs = "Encrypted" if label.startswith("encrypted") else "PlainOnly"
+        spellings = ("SpellingsQuick" if ck.tier == "quick" else "SpellingsFull") if label == "dict-spellings" else "OnlyPlainSpelling"
+        # the deviations about spellings change nothing where everything is spelled plainly: not explored there
+        cdev = list(dev) if label == "dict-spellings" else [d for d in dev if d not in SPELLING_DEVS]
         mod = "RunE_" + label.replace("-", "_")
         wrapper = os.path.join(ck.tmp, mod + ".tla")
         with open(wrapper, "w") as f:
-            f.write("---- MODULE %s ----\nEXTENDS MC_ImageExport\nTheChains == %s\nTheDevs == %s\n====\n" % (mod, chains, devsets(dev)))
+            f.write("---- MODULE %s ----\nEXTENDS MC_ImageExport\nTheChains == %s\nTheDevs == %s\n====\n" % (mod, chains, devsets(cdev)))
         cfg = write_cfg(os.path.join(ck.tmp, mod + ".cfg"),
                         constants={"Geometries": "<- " + geo, "PixKinds": "<- " + kinds, "Chains": "<- TheChains", "NameSets": "<- " + names,
-                                   "PreExisting": "<- " + dirs, "DevChoices": "<- TheDevs", "Envs": "<- " + envs},
+                                   "PreExisting": "<- " + dirs, "DevChoices": "<- TheDevs", "Envs": "<- " + envs, "Spellings": "<- " + spellings},
                         invariants=["DecisionTotal", "DecisionRight", "BMPReadsBack", "JPEGByteForByte", "DistinctNames", "SeekInArray"],
                         constraints=["EmitTerminal"])
         emit = os.path.join(ck.tmp, mod + ".ndjson")
@@ -255,13 +264,13 @@ def direction_a_export(ck, dev):
         for gi, (key, recs) in enumerate(groups.items()):
             if "" not in recs:
                 raise MachineryError("no intended-design record for %s" % key[:200])
-            for d in dev:
-                if sig(recs.get(d if len(dev) > 1 else dkey(dev), recs[""])) != sig(recs[""]):
+            for d in cdev:
+                if sig(recs.get(d if len(cdev) > 1 else dkey(cdev), recs[""])) != sig(recs[""]):
                     effect[d] = effect.get(d, 0) + 1
             if not realisable(recs[""]):
                 skipped += 1
                 continue
-            replay_export(ck, recs, dev, outroot, label, gi)
+            replay_export(ck, recs, cdev, outroot, label, gi)
             ck.replayed += 1
             if gi % 211 == 0:
                 r = recs[""]
@@ -281,7 +290,9 @@ def direction_a_export(ck, dev):
 def export_teeth(ck):
     found = {}
     for d, inv, chains in (("UnfilteredIndexError", "P_DecisionTotal", "{<<>>}"), ("RowsRGB", "P_BMPReadsBack", '{<<"Flate">>}'),
-                           ("ShortLastRow", "P_BMPReadsBack", '{<<"Flate">>}'), ("JpegRawdata", "P_JPEGByteForByte", '{<<"DCT">>}')):
+                           ("ShortLastRow", "P_BMPReadsBack", '{<<"Flate">>}'), ("JpegRawdata", "P_JPEGByteForByte", '{<<"DCT">>}'),
+                           ("FilterEntryUnresolved", "P_DecisionRight", '{<<"DCT">>}'), ("ColorSpaceUnresolved", "P_DecisionRight", '{<<"Flate">>}'),
+                           ("GeometryUnresolved", "P_DecisionTotal", '{<<"Flate">>}')):
         mod = "TeethE_%s" % d
         wrapper = os.path.join(ck.tmp, mod + ".tla")
         with open(wrapper, "w") as f:
@@ -289,7 +300,8 @@ def export_teeth(ck):
         cfg = write_cfg(os.path.join(ck.tmp, mod + ".cfg"),
                         constants={"Geometries": "<- Geo3", "PixKinds": "<- KindsBmp", "Chains": "<- TheChains", "NameSets": "<- OneImage",
                                    "PreExisting": "<- EmptyDir", "DevChoices": "<- TheDevs",
-                                   "Envs": "<- Encrypted" if d == "JpegRawdata" else "<- PlainOnly"}, invariants=[inv])
+                                   "Envs": "<- Encrypted" if d == "JpegRawdata" else "<- PlainOnly",
+                                   "Spellings": "<- SpellingsQuick" if d in SPELLING_DEVS else "<- OnlyPlainSpelling"}, invariants=[inv])
         res = run_tlc(wrapper, cfg, workers=2, timeout=600, lib=LIB)
         ck.add_tlc(res, "counterexample search: %s alone against %s" % (d, inv))
         if res.ok or res.violated != inv:
